@@ -44,3 +44,42 @@ impl<T: Unpin> Future for Delay<T> {
         }
     }
 }
+
+/// How a request is driven: the blocking call, the future on the bare executor above, or the
+/// future on a tokio current-thread runtime; `k` = number of times every inner (HTTP / sleep)
+/// future reports Pending before completing.
+#[derive(Clone, Copy, Debug)]
+pub enum Variant {
+    Sync,
+    Bare(usize),
+    Tokio(usize),
+}
+pub fn parse_variant(s: &str) -> Option<Variant> {
+    let (name, k) = match s.split_once(':') {
+        Some((n, k)) => (n, k.parse().ok()?),
+        None => (s, 0),
+    };
+    match name {
+        "sync" => Some(Variant::Sync),
+        "async" => Some(Variant::Bare(k)),
+        "tokio" => Some(Variant::Tokio(k)),
+        _ => None,
+    }
+}
+impl Variant {
+    pub fn is_sync(&self) -> bool {
+        matches!(self, Variant::Sync)
+    }
+    pub fn k(&self) -> usize {
+        match self {
+            Variant::Sync => 0,
+            Variant::Bare(k) | Variant::Tokio(k) => *k,
+        }
+    }
+    pub fn drive<F: Future>(&self, fut: F) -> F::Output {
+        match self {
+            Variant::Tokio(_) => tokio::runtime::Builder::new_current_thread().build().unwrap().block_on(fut),
+            _ => block_on(fut),
+        }
+    }
+}
